@@ -147,7 +147,10 @@ func judgeSyntax(text []byte) (bad, fid string, judged bool) {
 	}
 	doc, lv, pan := langx.Lib(text)
 	_ = doc
-	if pan != nil || lv.OK {
+	if pan != nil {
+		return fmt.Sprintf("no located error: parsing a rejected text panicked: %v", pan), "", true
+	}
+	if lv.OK {
 		return "", "", false // acceptance mismatches are C03's business
 	}
 	// re-parse to get the located error
